@@ -231,6 +231,13 @@ func (p *Proof) VerifyWithChallenge(pk *gabikeys.PublicKey, reconstructedChallen
 	if (*proof)(p).ProofResult("alpha").Cmp(Parameters.bTwoZk) > 0 {
 		return false
 	}
+	// The commitments must not vanish modulo N: with C_r = C_u = 0 (mod N) every reconstructed
+	// commitment collapses to zero whatever the responses are, so no witness would be needed.
+	// (C_u is not necessarily reduced: ProofCommit.Update leaves it as a plain product.)
+	if p.Cr.Sign() < 0 || p.Cu.Sign() < 0 ||
+		new(big.Int).Mod(p.Cr, pk.N).Sign() == 0 || new(big.Int).Mod(p.Cu, pk.N).Sign() == 0 {
+		return false
+	}
 	acc, err := p.SignedAccumulator.UnmarshalVerify(pk)
 	if err != nil {
 		return false
